@@ -468,6 +468,9 @@ func C05(p *load.Prog, r *oblig.Run) {
 				switch {
 				case zeroReturn && Z == "f" && Y != "0":
 					o.Fail("on a path on which the text WAS parsed as a calendar date (" + kb + ") Date.Time returns the zero time instead of the bound: the period of a valid date ends (or starts) at year 1 - its end lies before its start")
+				case unknown != "" && want != "?" && got != want:
+					// the component tests on the path already fix the adjustment; a further test the rule cannot read only narrows the path
+					o.Fail(fmt.Sprintf("when %s (and under %s) the bound is adjusted by [%s]; the last nanosecond of the period needs [%s] for every date with these components", kb, unknown, got, want))
 				case unknown != "":
 					o.Unknown(unknown)
 				case zeroByValue && E == "t" && Z == "t" && Y != "0":
